@@ -20,7 +20,7 @@ fn image_ok(by: &[u8], arch: HeaderTagISA) {
     vassert!(le16(by, n - 8) == 0 && le16(by, n - 6) == 0 && le32(by, n - 4) == 8, "terminated by an end tag (type 0, flags 0, size 8) as the final 8 bytes");
 }
 
-// @harness props=C12 tier=quick panic=forbid builder=yes
+// @harness props=C12 tier=quick panic=forbid builder=yes mem=20 timeout=1200
 // @encodes multiboot2_header::Builder::{new,information_request_tag,build} InformationRequestHeaderTag::new new_boxed (image of the built header)
 // @bound subset {information request} with 0..=3 symbolic requests, both architectures, both flag values
 #[cfg_attr(kani, kani::proof)]
@@ -48,7 +48,7 @@ pub fn c12_image_information_request() {
     cover!(n == 2, "even request count");
 }
 
-// @harness props=C12 tier=quick panic=forbid builder=yes
+// @harness props=C12 tier=quick panic=forbid builder=yes mem=20 timeout=1200
 // @encodes multiboot2_header::Builder::{new,address_tag,relocatable_tag,build} (image of the built header)
 // @bound subset {address, relocatable} with symbolic field values, set in either call order; empty subset
 #[cfg_attr(kani, kani::proof)]
